@@ -340,6 +340,29 @@ def run(tier):
     broken = chk.prove(['SarpyModel.Props.C13', 'SarpyModel.Gen.NitfTables', 'SarpyModel.Drivers'], 'SarpyModel.Props.C13',
                        'Sarpy.Props.C13', REQUIRED, gen_info)
     broken += xs.prove()
+    # the pad pixel code width is regenerated from MaskSubheader.define_tpxcd_length and bridged (Bridge/Kernels2.lean)
+    import kernels2
+    from common import audit as _audit
+    k2_info = kernels2.regen()
+    chk.coverage.setdefault('translator', {})['method_kernels'] = k2_info
+    if any(n == 'tpxcd_length' for n, _ in k2_info['unsupported']):
+        broken.append('translator could not express define_tpxcd_length: ' + json.dumps(k2_info['unsupported']))
+    from common import lake_build as _lb, ALLOWED_AXIOMS as _AA
+    _ok, _failed, _errs, _log = _lb(['SarpyModel.Bridge.Kernels2'])
+    if not _ok:
+        broken.append('SarpyModel.Bridge.Kernels2 (lake build failed): ' + '; '.join(f'{f}:{l}: {m}' for f, l, c, m in _errs[:3]))
+    else:
+        _k = _audit('SarpyModel.Bridge.Kernels2', 'Sarpy.Bridge.K2')
+        for r in ('gen_tpxcd_length', 'tpxcdBytes_spec'):
+            nm = 'Sarpy.Bridge.K2.' + r
+            if nm not in _k:
+                broken.append(nm + ' (required theorem missing)')
+            elif set(_k[nm]) - _AA:
+                broken.append(nm + ' depends on non-standard axioms')
+            else:
+                chk.coverage['obligations'] = chk.coverage.get('obligations', 0) + 1
+                chk.coverage['discharged'] = chk.coverage.get('discharged', 0) + 1
+                chk.coverage.setdefault('theorems', []).append(nm)
 
     fails = []
     stats = {}
@@ -443,6 +466,8 @@ def run(tier):
         "Python's '{:0wd}' / '{:ws}' formatting is specified by Spec.FieldFmt.encInt / encStr and validated by this correspondence",
         'standard-side lengths (MIL-STD-2500C) are a hand transcription',
     ]
+    nk = kernels2.run_kernels(rng, tier, ['tpxcd'], fails, disagreements, stats)
+    chk.coverage['evaluations'] = chk.coverage.get('evaluations', 0) + nk
     unknown = [f for f in fails if not (f.get('key') and chk.known(f['key']))]
     for f in unknown[:5]:
         chk.violation(f['msg'], {'case': f, 'replay_cmd': './check C13 --replay <this file>'}, True)
